@@ -7,9 +7,6 @@ import vlib
 HAND = os.path.join(vlib.SPEC, "net", "ClientApiTable.json")
 INVS = "TypeOK DoneAfterHandler CleanAfterDone MutexOwner".split()
 PROPS = "CallReturns CloseCompletes SecondCallReturns ScriptPlayed".split()
-# quick tier: one call (one script family) per protocol
-QUICK = ["localtxsubmission.SubmitTx", "localtxmonitor.HasTx", "localstatequery.GetCurrentEra", "chainsync.Sync",
-         "blockfetch.GetBlock", "peersharing.GetPeers", "txsubmission.RequestTxIdsBlocking"]
 
 
 def build_table(drv, repo, notes):
@@ -53,19 +50,21 @@ def build_table(drv, repo, notes):
                     got = [{"ch": s["ch"], "sel": bool(s["sel"] and s["done"]),
                             "buf": ff["chancap"].get(s["ch"], 0) != 0, "eff": rp["eff"]} for s in h["sends"]]
                     names = [g["ch"] for g in got]
-                    if sorted(names) != sorted(hand_fields) and not set(hand_fields) <= set(names):
+                    if not set(hand_fields) <= set(names):
                         notes.append("%s: %s sends on %s, the hand-written structure expects %s" %
                                      (api["name"], rp["handler"], names, hand_fields))
                     elif sorted(names) != sorted(hand_fields):
                         extra = list(names)
                         for x in hand_fields:
-                            extra.remove(x)
+                            if x in extra:
+                                extra.remove(x)
                         # a send the hand-written structure does not know: harmless if buffered, else it blocks the handler
                         if any(not g["buf"] for g in got if g["ch"] in extra):
-                            notes.append("%s: %s has sends beyond the hand-written structure: %s" %
+                            notes.append("%s: %s has blocking sends beyond the hand-written structure: %s" %
                                          (api["name"], rp["handler"], extra))
                 replies.append({"name": rp["name"], "handler": rp["handler"], "eff": rp["eff"],
-                                "unlock": bool(rp.get("unlock")), "push": push + got})
+                                "unlock": bool(rp.get("unlock")), "restart": bool(rp.get("restart")),
+                                "push": push + got})
             stages.append({"req": st["req"], "reqtype": st.get("reqtype", 0), "bg": bg, "wait": st["wait"],
                            "done": bool(done), "forbid": st["forbid"], "replies": replies})
         apis.append({"name": api["name"], "proto": api["proto"], "conn": api["conn"], "pid": api["pid"],
@@ -73,7 +72,10 @@ def build_table(drv, repo, notes):
                      "mutex": bool(api["mutex"]) and api["mutex"] in fn["locks"],
                      "hold": bool(api.get("hold")), "cleanup": bool(ff["cleanup"]),
                      "closed": sorted(set(ff["closed_on_done"]) & waits), "stages": stages})
-    return {"apis": apis, "conn": {"waits": bool(facts["conn"]["waits"])}}, facts
+    if not facts["engine"]["found"]:
+        raise vlib.MachineryError("Protocol.Start not found in %s/protocol/protocol.go" % repo)
+    return {"apis": apis, "conn": {"waits": bool(facts["conn"]["waits"])},
+            "engine": {"startfail_done": bool(facts["engine"]["startfail_done"])}}, facts
 
 
 def predictions(r):
@@ -106,9 +108,13 @@ def predictions(r):
         c = cases[k]
         if c["n"] == 0:
             raise vlib.MachineryError("case without terminal state: %s" % (k,))
-        rows.append({"api": k[0], "script": list(k[1]), "idx": i,
-                     "pred": {f: sorted(c[f]) for f in ("ret", "ret2", "closeret", "errclosed", "safe", "played")}
-                     | {"alive": [list(a) for a in sorted(c["alive"])], "blocked": sorted(c["blocked"])}})
+        pred = {f: sorted(c[f]) for f in ("ret", "ret2", "closeret", "errclosed", "safe", "played")}
+        pred["alive"] = [list(a) for a in sorted(c["alive"])]
+        pred["blocked"] = sorted(c["blocked"])
+        row = {"api": k[0], "script": list(k[1]), "idx": i, "pred": pred}
+        if len(pred["alive"]) > 1:
+            row["repeat"] = 8        # a race in the model decides whether something is left behind: try it several times
+        rows.append(row)
     return rows
 
 
@@ -118,6 +124,25 @@ def _tlc(chk, cfg, table_path, timeout, workers=1, coverage=False, add=True):
     if add:
         chk.add_tlc(cfg, r)
     return r
+
+
+def _liveness_on_extracted(chk, table_path, rows, unsafe):
+    """TLC's own verdict on the liveness statements for the table as extracted must agree with the terminal states
+    it emitted: violated exactly when some case has a terminal state with a hang / a leftover / an unsafe close."""
+    rl = _tlc(chk, "ClientApiLive.cfg", table_path, timeout=1200, workers=4)
+    expect_violation = bool(unsafe) or any(
+        False in x["pred"]["ret"] or False in x["pred"]["ret2"] or x["pred"]["alive"] != [[]] for x in rows)
+    viol = rl.violation
+    if not viol and rl.error:
+        first = rl.error.splitlines()[0]
+        if "violated" in first and ("Temporal propert" in first or "Invariant" in first):
+            viol = rl.error          # "Temporal properties X and Y were violated"
+    if not rl.ok and not viol:
+        raise vlib.MachineryError("ClientApiLive.cfg: %s" % rl.error)
+    if rl.ok == expect_violation:
+        raise vlib.MachineryError("ClientApiLive.cfg: TLC's verdict on the liveness statements (%s) does not agree with the "
+                                  "terminal states it emitted (hang/leftover predicted: %s)" % (rl.ok, expect_violation))
+    chk.extra["liveness_on_the_extracted_table"] = "hold" if rl.ok else viol.splitlines()[0]
 
 
 def run(chk, replay=None):
@@ -160,12 +185,15 @@ def run(chk, replay=None):
                     "wait_selects_DoneChan": [s["done"] for s in a["stages"] if not s["bg"]]}
         for a in table["apis"]}
     chk.extra["shutdown_waits_for_forwarders"] = table["conn"]["waits"]
+    chk.extra["start_closes_DoneChan_when_registration_fails"] = table["engine"]["startfail_done"]
 
     if replay:
         obj = json.load(open(replay))
         row = obj["row"]
         row["rseed"] = obj.get("rseed")
-        path = os.path.join(d, "rows.ndjson")
+        if len(row.get("pred", {}).get("alive", [])) > 1:
+            row["repeat"] = 24       # the recorded verdict depends on a race: give it some chances
+        path = os.path.join(d, "replay_rows.ndjson")
         vlib.write_ndjson(path, [row])
         env = {"VERIF_SEED": obj["verif_seed"]} if "verif_seed" in obj else None
         vlib.run_driver(chk, drv, ["run", table_path, path], timeout=600, env=env)
@@ -173,14 +201,14 @@ def run(chk, replay=None):
 
     quick = chk.tier == "quick"
     cfg = "ClientApi.cfg" if quick else "ClientApiThorough.cfg"
-    r = _tlc(chk, cfg, table_path, timeout=170 if quick else 900, coverage=not quick)
+    r = _tlc(chk, cfg, table_path, timeout=240 if quick else 1200, workers=4 if quick else 8, coverage=not quick)
     vlib.tlc_must_pass(r, cfg)
     if r.coverage_zero:
         chk.extra["spec_actions_never_taken"] = sorted(set(r.coverage_zero))
     rows = predictions(r)
     chk.extra["cases"] = len(rows)
-    hang_pred = [x for x in rows if False in x["pred"]["ret"] or False in x["pred"]["ret2"]]
-    chk.extra["cases_where_the_model_predicts_a_hang"] = len(hang_pred)
+    chk.extra["cases_where_the_model_predicts_a_hang"] = sum(
+        1 for x in rows if False in x["pred"]["ret"] or False in x["pred"]["ret2"])
     chk.extra["cases_where_the_model_predicts_a_leftover"] = sum(1 for x in rows if x["pred"]["alive"] != [[]])
     chk.extra["cases_with_a_race_in_the_model"] = sum(1 for x in rows if len(x["pred"]["ret"]) > 1)
     unsafe = [x for x in rows if False in x["pred"]["safe"]]
@@ -193,20 +221,12 @@ def run(chk, replay=None):
                      {"cases": [[x["api"], x["script"]] for x in unsafe[:20]]})
 
     # the repaired design satisfies the property's liveness statements (and the spec is not vacuous)
-    rr = _tlc(chk, "ClientApiRepaired.cfg", table_path, timeout=170 if quick else 600)
-    vlib.tlc_must_pass(rr, "ClientApiRepaired.cfg")
+    rcfg = "ClientApiRepairedQuick.cfg" if quick else "ClientApiRepaired.cfg"
+    rr = _tlc(chk, rcfg, table_path, timeout=240 if quick else 1200, workers=4)
+    vlib.tlc_must_pass(rr, rcfg)
     if not quick:
-        rl = _tlc(chk, "ClientApiLive.cfg", table_path, timeout=600)
-        expect_violation = bool(hang_pred) or any(x["pred"]["alive"] != [[]] for x in rows) or bool(unsafe)
-        if rl.error:
-            raise vlib.MachineryError("ClientApiLive.cfg: %s" % rl.error)
-        if rl.ok == expect_violation:
-            raise vlib.MachineryError("ClientApiLive.cfg: TLC's verdict on the liveness statements (%s) does not agree with the "
-                                      "terminal states it emitted (hang/leftover predicted: %s)" % (rl.ok, expect_violation))
-        chk.extra["liveness_on_the_extracted_table"] = "hold" if rl.ok else (rl.violation or "").splitlines()[0]
+        _liveness_on_extracted(chk, table_path, rows, unsafe)
 
-    path = os.path.join(d, "rows.ndjson")
-    vlib.write_ndjson(path, rows)
     shards = 8 if quick else 16
     vlib.run_driver_sharded(chk, drv, ["run", table_path], rows, shards=shards, timeout=400 if quick else 1500)
     if not quick:
@@ -237,4 +257,5 @@ def _binding_selftest(chk, drv, table_path, rows):
             if l.startswith("{") and json.loads(l).get("t") == "disagree"]
     if len(keys) != 2 or not any("predicted-hang" in k for k in keys) or not any("predicted-leak" in k for k in keys):
         raise vlib.MachineryError("binding self-test: flipped predictions gave %s" % keys)
-    chk.extra["binding_selftest"] = "prediction of one well-served case flipped to 'hangs' / 'leaves goroutines': driver objected to both"
+    chk.extra["binding_selftest"] = ("prediction of one well-served case flipped to 'hangs' / 'leaves goroutines': "
+                                     "driver objected to both")
